@@ -67,6 +67,14 @@ def specSort (cs : List (Con Int)) : List (Con Int) :=
 
 def wfB (cs : List (Con Int)) : Bool := wfSortedB (specSort cs)
 
+/-- computable reading of `NonVacuous` -/
+def nonVacuousB (cs : List (Con Int)) : Bool :=
+  cs.all Con.isNe ||
+  cs.all (fun c => match c with
+    | .mk .ne v => inIntervals intCmp v (cs.filter Con.isBound)
+    | .mk .eq v => !inIntervals intCmp v (cs.filter Con.isBound)
+    | _ => true)
+
 def permOf (flag : String) : List (Con Int) → List (Con Int) :=
   if flag == "rev" then List.reverse
   else if flag == "rot" then (fun l => l.drop 1 ++ l.take 1)
@@ -99,9 +107,10 @@ def versCmd : List String → Option String
       pure (resCons (sortCons intOps cs))
   | ["invert", cs] => do
       let cs ← parseCons cs
-      pure (match invertRange intOps cs with
+      let m := match invertRange intOps cs with
         | none => "none"
-        | some r => resCons r)
+        | some r => resCons r
+      pure s!"{m} {boolStr (wfSortedB cs)} {boolStr (nonVacuousB cs)}"
   | ["normalize", cs, ks] => do
       let cs ← parseCons cs
       let ks ← parseInts ks
